@@ -416,6 +416,12 @@ def hist_content_range(W, ops, prng):
         elif op == "set_units":
             cr.set(1, 2, 3, units="items")
             m = ("items", 1, 2, 3)
+        elif op == "set_unsat":
+            cr.set(None, None, 7)
+            m = ("bytes", None, None, 7)
+        elif op == "set_unsat_zero":
+            cr.set(None, None, 0)
+            m = ("bytes", None, None, 0)
         elif op == "unset":
             cr.unset()
             m = None
@@ -462,7 +468,7 @@ def hist_content_range(W, ops, prng):
     return hist
 
 
-CR_OPS = ["set", "set_nolen", "set_units", "unset", "attr_len", "attr_start", "attr_stop", "units", "assign_str", "assign_none", "direct"]
+CR_OPS = ["set", "set_nolen", "set_units", "set_unsat", "set_unsat_zero", "unset", "attr_len", "attr_start", "attr_stop", "units", "assign_str", "assign_none", "direct"]
 
 
 def hist_mimetype_params(W, ops, prng):
@@ -591,6 +597,19 @@ def scalars(W, rec):
         got = getattr(r, name)
         if list(got) != ["X-A", "x-b"]:
             rec.violation(f"C16/scalar-readback:{name}", f"{list(got)!r}", {"scalar": name}, monitor="readback")
+    # properties whose parsed value is a detached, mutable object: every read parses the header afresh
+    for name in ("access_control_allow_headers", "access_control_allow_methods", "access_control_expose_headers"):
+        rec.case()
+        r2 = Response()
+        setattr(r2, name, ["GET", "HEAD"])
+        first = getattr(r2, name)
+        first.add("DELETE")
+        first.discard("GET")
+        again = getattr(r2, name)
+        other = Response()
+        setattr(other, name, ["GET", "HEAD"])
+        if list(again) != ["GET", "HEAD"] or list(getattr(other, name)) != ["GET", "HEAD"]:
+            rec.violation(f"C16/scalar-readback:{name}", f"after editing a previously returned value, re-read gives {list(again)!r} / another response {list(getattr(other, name))!r}; header {r2.headers.get(name.replace('_', '-'))!r}", {"scalar": name}, monitor="readback")
     rec.case()
     r.set_etag("abc", weak=True)
     if r.get_etag() != ("abc", True):
